@@ -65,7 +65,11 @@ where
   /// On insert, add the new item to the clock.
   fn on_admit(&self, key: &K, cost: u64) -> AdmissionDecision<K> {
     let mut state = self.state.lock();
-    if !state.items.contains_key(key) {
+    if let Some(entry) = state.items.get_mut(key) {
+      // Re-admission of a tracked key (an overwrite): keep its place on the
+      // clock but record the new cost, which evict() reports back.
+      entry.cost = cost;
+    } else {
       state.items.insert(
         key.clone(),
         ClockEntry {
